@@ -6,6 +6,7 @@ use crate::WorkerCtx;
 pub mod common;
 pub mod c14;
 pub mod c13;
+pub mod c15;
 pub mod smoke;
 pub mod c01;
 pub mod c02;
@@ -32,6 +33,7 @@ pub fn plan(id: &str, tier: &str) -> Option<Plan> {
         "C03" => Some(Plan::new(if _t { 48 } else { 12 }, 900)),
         "C14" => Some(Plan::new(if _t { 16 } else { 6 }, 900)),
         "C13" => Some(Plan::new(if _t { 32 } else { 12 }, 1500)),
+        "C15" => Some(Plan::new(if _t { 32 } else { 12 }, 1500)),
         _ => None,
     }
 }
@@ -43,6 +45,7 @@ pub fn spec(id: &str) -> Option<Spec> {
         "C03" => Some(c03::spec()),
         "C14" => Some(c14::spec()),
         "C13" => Some(c13::spec()),
+        "C15" => Some(c15::spec()),
         _ => None,
     }
 }
@@ -54,6 +57,7 @@ pub fn worker(ctx: &WorkerCtx) -> WorkerReport {
         "C03" => c03::worker(ctx),
         "C14" => c14::worker(ctx),
         "C13" => c13::worker(ctx),
+        "C15" => c15::worker(ctx),
         other => {
             let mut r = WorkerReport::default();
             r.inconclusive(format!("no worker for {}", other));
